@@ -603,6 +603,32 @@ theorem runPiecesP_eq (p : Params) (hp : p.Valid) (pieces : List (Method × List
   unfold Enc.runPiecesP Enc.runPieces
   exact goP_eq p hp pieces _ _ _ Reachable.init
 
+/-- Encoder state, placeholder counter and output pipe between `consume_once` calls, with the
+consumer draining the output (any number of stable bytes, at any time) in between. -/
+inductive DReachable (p : Params) : EncState → Nat → Pipe → Prop
+  | init : DReachable p (Enc.init p 0).1 1 (runE Pipe.empty (Enc.init p 0).2)
+  | step {s : EncState} {nid : Nat} {q : Pipe} (m : Method) (input : List UInt8) :
+      DReachable p s nid q → input ≠ [] →
+      DReachable p (Enc.consumeOnce p s nid m input).st (Enc.consumeOnce p s nid m input).nextId
+        (runE q (Enc.consumeOnce p s nid m input).emits)
+  | drain {s : EncState} {nid : Nat} {q : Pipe} (k : Nat) :
+      DReachable p s nid q → DReachable p s nid (q.consume k).1
+
+/-- Draining is invisible to the encoder: with the drained bytes put back, the pipe is a
+`Reachable` one. -/
+theorem dreachable_total (p : Params) {s : EncState} {nid : Nat} {q : Pipe} (h : DReachable p s nid q) :
+    Reachable p s nid q.total := by
+  induction h with
+  | init => rw [runE_empty_total]; exact Reachable.init
+  | step m input _ hne ih => rw [runE_total]; exact Reachable.step m input ih hne
+  | drain k _ ih => rw [consume_total]; exact ih
+
+theorem reachable_dreachable (p : Params) {s : EncState} {nid : Nat} {q : Pipe} (h : Reachable p s nid q) :
+    DReachable p s nid q := by
+  induction h with
+  | init => exact DReachable.init
+  | step m input _ hne ih => exact DReachable.step m input ih hne
+
 end EncProof
 
 end Woodpile.Hcobs
